@@ -55,7 +55,38 @@ cull = Contract(
     note="the task-spec cull (work-set traversal through bound-method aliases wpop/wupdate/sadd); keys given as a list",
 )
 
-CONTRACTS = [container_token, cull]
+# ---- C08: a Task's reported dependencies are exactly the keys its arguments reference
+RefT = T.Rec("TaskRef", {"key": Key})
+GNodeT = T.Rec("GraphNodeArg", {"dependencies": SetK})
+ArgU = T.Union("TaskArg", {"ref": RefT, "node": GNodeT, "other": T.U("Literal")}, classes={"TaskRef": ["ref"], "GraphNode": ["node"]})
+KwT = T.Rec("Kwargs", {"vals": T.Seq(ArgU)})
+TaskT = T.Rec("TaskObj", {"key": Key, "func": T.U("Fn"), "args": T.Seq(ArgU), "kwargs": KwT, "_dependencies": SetK,
+                          "_is_coro": T.Opt(T.Bool), "_token": T.Opt(Tok), "_repr": T.Opt(T.U("Repr")), "_data_producer": T.Bool})
+
+_REFS = ("exists(lambda j: 0 <= j and j < {n} and ((isinstance({xs}[j], TaskRef) and {xs}[j].key == k) or "
+         "(isinstance({xs}[j], GraphNode) and k in {xs}[j].dependencies)))")
+
+task_init = Contract(
+    MODULE, "Task.__init__",
+    params={"self": TaskT, "key": Key, "func": T.U("Fn"), "args": T.Seq(ArgU), "_data_producer": T.Bool, "kwargs": KwT},
+    defaults={"_data_producer": "False"},
+    locals={"_dependencies": T.Opt(SetK), "a": ArgU},
+    frame=["self"],
+    requires=[("lens", "len(args) >= 0 and len(kwargs.vals) >= 0")],
+    ensures=[
+        ("C08-dependencies-are-exactly-the-referenced-keys",
+         "forall(lambda k: (k in self._dependencies) == (" + _REFS.format(n="len(args)", xs="args") + " or " + _REFS.format(n="len(kwargs.vals)", xs="kwargs.vals") + "), Key)"),
+        ("stores-its-arguments", "same(self.args, args) and same(self.kwargs, kwargs) and self.key == key and self.func == func"),
+        ("fresh-caches", "self._token is None and self._is_coro is None"),
+    ],
+    loops={0: dict(index="n", seq="allargs", invariant=[
+        ("allargs", "len(allargs) == len(args) + len(kwargs.vals) and forall(lambda j: implies(0 <= j and j < len(args), allargs[j] == args[j])) and forall(lambda j: implies(0 <= j and j < len(kwargs.vals), allargs[len(args) + j] == kwargs.vals[j]))"),
+        ("collected", "forall(lambda k: (_dependencies is not None and k in _dependencies) == " + _REFS.format(n="n", xs="allargs") + ", Key)"),
+    ])},
+    note="positional-only marker and **kwargs are flattened by the extraction: kwargs is modelled by the sequence of its values (the keyword names are irrelevant to the dependencies)",
+)
+
+CONTRACTS = [container_token, cull, task_init]
 
 
 def model_type_name(eng, st, base, node):
@@ -63,7 +94,19 @@ def model_type_name(eng, st, base, node):
     return fresh(T.U("Name"), "typename")
 
 
+def model_chain(eng, st, node, want):
+    a = eng.ev(node.args[0], st)
+    b = eng.ev(node.args[1], st)
+    return eng.seq_concat(a, b, st)
+
+
 def setup(eng):
+    eng.funcs["itertools.chain"] = FuncVal("itertools.chain", "model", model_chain)
+    eng.attr_models[("method", "Kwargs", "values")] = lambda eng_, st, base, node, lv: SV(KwT.get(base.t, "vals"), T.Seq(ArgU))
+    eng.funcs["frozenset"] = FuncVal("frozenset", "model", lambda e, st, node, want: e.ev(node.args[0], st))
+    eng.consts["_no_deps"] = SV(SetK.empty(), SetK)
+    eng.isinstance_static[("Fn", "Task")] = False
+    eng.mutable_records.update({"TaskObj"})
     eng.spec_types["Key"] = Key
     eng.funcs["node_deps"] = FuncVal("node_deps", "uf", (node_deps, SetK, [Node]))
     eng.attr_models[("attr", "Node", "dependencies")] = lambda eng_, st, base, node: SV(node_deps(base.t), SetK)
